@@ -96,7 +96,7 @@ claim("C02",
 claim("C03",
   "table agreement across four independently maintained codec descriptions + wire-shape comparison of every reader/writer pair",
   "Decides that type/basic primitives, signature constructors (letter, IDL, reader width, Go type, template primitives), the reflection encoder/decoder kind switches, the Encode/Decode type switches and the documentation agree row by row; that slice/map are a 32-bit count plus that many elements (key before value) on every side with fresh storage per decoded element; and that all checked-in readX/writeX pairs have identical field-by-field wire shapes.",
-  "The generator templates themselves are not analysed (only their checked-in output); value equality is not decided.",
+  "The generator is analysed under C05 (emitted operations), here only its scalar rows and its checked-in output; value equality is not decided.",
   "DESIGN.md §3 C03")
 
 claim("C09",
@@ -122,4 +122,8 @@ for pid in ["C01","C02","C03","C04","C06","C07","C08","C09","C10","C11","C12","C
     if pid not in CLAIMED:
         na(pid, _pending)
 
-na("C05", "quantifies over all IDL programs and over the output of running the generator and the Go compiler; analysing /repo's source says nothing about text the generator will emit for an unseen IDL, and running the generator is execution (another family). See DESIGN.md §3 C05.")
+claim("C05",
+  "emitted-operation extraction over the code generator's syntax tree (jen call chains, string fragments, Type.Marshal/Unmarshal calls, loops over Members/Params) and dual comparison of the write and read sides + per-iteration completeness on SSA",
+  "Decides, on the generator itself (meta/signature, meta/stub, meta/idl), the structural clauses without which the generated halves cannot be inverses for any IDL: every scalar constructor names the Write and Read primitive of its own letter; for list, map, tuple, struct and enum the operations emitted by Marshal are the dual of those emitted by Unmarshal (same primitives, same members in the same order, same Go expression on both sides, generated loops in the same places behind a 32-bit count, struct read/write functions declared under the names the call sites use and covering every member); every emitter that encodes or decodes a parameter list handles each declared parameter exactly once per iteration with the parameter's own type (stub method, signal and property bodies, proxy bodies); the stub encodes the result after decoding the parameters.",
+  "NOT decided: that the generated text compiles for every IDL (identifier hygiene, imports, name collisions, well-formedness of the string fragments), that a signal's tuple type on the subscriber side is the tuple of the emitter's parameters, equality of values end to end. The generator is never run; only its source is analysed, so a check of the generated output for an unseen IDL is out of reach of this technique.",
+  "DESIGN.md §3 C05")
